@@ -1660,6 +1660,14 @@ def build_fn(fs, repo, effectful, table_keys, canary=False):
         pieces.append(Piece(text[pos:st[body_open][2]], ('src', pos)))
         pieces.append(Piece('{ unimplemented!() }', ('glue', None)))
         log.append('TRUSTED: body dropped, contract assumed')
+        if fs.rename and not sliced:
+            # a function emitted under another name keeps that name when its body is left out
+            nm_s, nm_e = st[name_i][2], st[name_i][3]
+            for p_ in pieces:
+                if p_.origin[0] == 'src' and p_.origin[1] <= nm_s < p_.origin[1] + len(p_.text):
+                    rel = nm_s - p_.origin[1]
+                    p_.text = p_.text[:rel] + fs.rename + p_.text[rel + (nm_e - nm_s):]
+                    break
         g.out_lines = _pieces_to_lines(pieces, g, text)
         return g
 
